@@ -120,7 +120,16 @@ class LibMixin:
             return [Res(st, SV("seq", sq, h="cls"))]
         if name == "sys.exc_info":
             if not st.exc_stack:
-                return [Res(st, SV("tuple", None, x=[SV("none"), SV("none"), SV("none")]))]
+                amb = getattr(self, "ambient_exc", None)
+                if amb is None:
+                    return [Res(st, SV("tuple", None, x=[SV("none"), SV("none"), SV("none")]))]
+                self.assumptions.add("sys.exc_info() outside the function's own handlers: (None, None, None) or the exception the caller is handling (either, for every call)")
+                flag = z3.Bool("ambient_handling")
+                s0, s1 = st.copy(), st.copy()
+                s0.assume(z3.Not(flag)); s1.assume(flag)
+                s0.trail.append("excinfo:none"); s1.trail.append("excinfo:ambient")
+                return [Res(s0, SV("tuple", None, x=[SV("none"), SV("none"), SV("none")])),
+                        Res(s1, SV("tuple", None, x=[SV("cls", clsof(amb.t)), amb, SV("val", self.fresh("tb", Val))]))]
             e = st.exc_stack[-1]
             return [Res(st, SV("tuple", None, x=[SV("cls", clsof(e.t)), e, SV("val", self.fresh("tb", Val))]))]
         if name in ("warnings.warn",):
